@@ -402,3 +402,7 @@ CHECKS["C06"]["harnesses"].append(
     {"probe": "core", "harness": "Harness_C06_listInvalids", "setup": "Setup_C06_schedules", "reach": ["c06.listinvalids"], "workers": 8, "race": True,
      "configs_quick": ["single", "wl1", "wl2"], "configs_thorough": ["single", "wl1", "wl2", "follow_wl2"], "quick": {"sample_models": 6, "sample_every": 5}, "thorough": {"preempt": 1, "sample_models": 10, "sample_every": 31},
      "what": "three elements of a [T!] list each failing in a non-null field, worker_limit 0/1/2: the list is null and all three errors are reported on every completion order; race check"})
+
+CHECKS["C09"]["harnesses"].append(
+    dict(_HTTP, harness="Harness_C09_routing", setup="Setup_C09_routing", reach=["c09.routing.executed", "c09.routing.refused"], quick={"sample_models": 30, "sample_every": 11},
+         what="transport selection: both orders of the five HTTP transports x method GET/POST/PUT x 8 request Content-Types x document in the body (query / mutation / named mutation) x document in the URL: a GET never executes a mutation, at most one operation runs, status follows the outcome, never gqlgen's own panic"))
